@@ -71,7 +71,11 @@ Definition spec_step (strict : bool) (c : N) (sp : spec) (o : op) (r : res) : sp
            (u_locked sp)
            (if is_command (u_act sp) then No else u_pend sp)
   | ODeliver c' =>
-      if N.eqb c c' && disp_eqb (expected sp) Catch
+      (* only a delivery to a signal the user has trapped with a command is a
+         "delivery of a trapped signal"; one caught for the shell's own needs
+         only (internal disposition) owes no action run, even if a command
+         is set for the signal afterwards *)
+      if N.eqb c c' && is_command (u_act sp)
       then mkSp (u_act sp) (u_need sp) (u_locked sp) Yes else sp
   | OTakeSig c' =>
       if N.eqb c c' then mkSp (u_act sp) (u_need sp) (u_locked sp) No else sp
@@ -348,7 +352,8 @@ Definition Refines (init : disp) (st : sigst) (sp : spec) : Prop :=
   | Some e =>
       u_act sp = t_action (e_cur e) /\ u_need sp = e_internal e
       /\ (u_pend sp = Yes -> t_pending (e_cur e) = true)
-      /\ (u_pend sp = No -> t_pending (e_cur e) = false)
+      /\ (u_pend sp = No -> is_command (t_action (e_cur e)) = true ->
+          t_pending (e_cur e) = false)
       /\ (u_locked sp = true ->
           t_action (e_cur e) = AIgnore /\ t_origin (e_cur e) = Inherited)
   end.
